@@ -57,7 +57,10 @@ def extract(src: Path):
                                     stmts.append({"k": "all", "target": "nomodules", "names": [], "name": ""})
                                     hasall = True
                                 else:
-                                    raise RuntimeError(f"{f}: __all__ is computed in a way the import model does not know: {src_txt}")
+                                    # computed in some other way: the names are taken from a fresh interpreter (observe_all) and the
+                                    # assignment is modelled at this position with that list
+                                    stmts.append({"k": "all", "target": "observed", "names": [], "name": ""})
+                                    hasall = True
                         elif not (isinstance(node, ast.AnnAssign) and node.value is None):
                             stmts.append({"k": "def", "target": "", "names": [], "name": t.id})
         mods[name] = {"parent": ".".join(parts[:-1]), "leaf": parts[-1], "stmts": stmts, "hasall": hasall, "all": allnames,
@@ -69,6 +72,28 @@ def extract(src: Path):
             mods[p] = {"parent": ".".join(p.split(".")[:-1]), "leaf": p.split(".")[-1], "stmts": [], "hasall": False, "all": [], "generated": "_generated" in p, "is_pkg": True}
             p = mods[p]["parent"]
     return mods
+
+
+def observe_all(src: Path, mods, python):
+    """Fill in __all__ lists that are computed in ways the extractor cannot read, by asking a fresh interpreter."""
+    import subprocess
+    need = [m for m, d in mods.items() if any(st["k"] == "all" and st["target"] == "observed" for st in d["stmts"])]
+    if not need:
+        return
+    code = ("import sys, json, importlib; sys.dont_write_bytecode=True; sys.path.insert(0, sys.argv[1]); out={}\n"
+            "for m in sys.argv[2:]:\n"
+            "    try:\n        out[m] = list(getattr(importlib.import_module(m), '__all__', []))\n"
+            "    except Exception as e:\n        out[m] = None\n"
+            "print(json.dumps(out))")
+    p = subprocess.run([python, "-B", "-c", code, str(src)] + need, capture_output=True, text=True, timeout=300)
+    got = json.loads(p.stdout.strip().splitlines()[-1]) if p.returncode == 0 and p.stdout.strip() else {}
+    for m in need:
+        names = got.get(m) or []
+        for st in mods[m]["stmts"]:
+            if st["k"] == "all" and st["target"] == "observed":
+                st["names"] = [n for n in names]
+                st["target"] = ""
+        mods[m]["all"] = list(names)
 
 
 def doc_paths(mods):
@@ -90,8 +115,7 @@ def exports(mods):
             # home = the public counterpart of the generated package
             pub = ".".join(c for c in comps[:-1] if c != "_generated")
             for x in defs:
-                if x[:1].isupper():
-                    out.append({"name": x, "home": pub, "def": m})
+                out.append({"name": x, "home": pub, "def": m})        # every class a generated module defines
         elif not any(c.startswith("_") for c in comps):
             for x in defs:
                 out.append({"name": x, "home": ".".join(comps[:-1]), "def": m})
